@@ -901,7 +901,7 @@ def seq_names(tier):
 # scipy computes asymmetric uncertainties in > 1 s per single fit and > 5 s per multi-fit: the quick tier runs the sequences that
 # need them with scipy on the problems / sequences listed here (iminuit: everything), the thorough tier runs all of them
 QUICK_SCIPY_ASYM = {
-    "xy-lin": ("fit-asym", "fit-asymfirst", "fitA-reload-refit"),
+    "xy-lin": ("fit-asym", "fitA-reload-refit"),
     "hist": ("fit-asym", "fit-asymfirst"),
     "multi-one": ("fit-asymfirst",),
 }
